@@ -200,51 +200,77 @@ inductive Ev (A C : Type)
   | remove (path : String)
   | setwd (wd : String)                                     -- `pyxel.set_options(working_directory=…)`
   | load (name : String) (args : A)                         -- a model loads `name` (maybe relative)
+  | chdir (dir : String)                                    -- the process changes its current directory
+  | link (path target : String)                             -- a symbolic link is created / re-pointed
+
+/-- everything a name's meaning depends on besides the name: the working directory option, the process's current
+directory and the symbolic links -/
+structure Env where
+  wd : String
+  cwd : String
+  links : List (String × String)
 
 structure World (A C V : Type) where
   fs : FS C
   clock : Nat                 -- source of fresh identities: every write gets a new one
-  wd : String                 -- the working directory in force
+  env : Env
   cache : Cache A V
 
-def World.init {A C V} : World A C V := ⟨fun _ => none, 1, "", []⟩
+def World.init {A C V} : World A C V := ⟨fun _ => none, 1, ⟨"", "cwd", []⟩, []⟩
 
-/-- one event; returns the loader's answer for `load` events.  `resolve wd name` is the path that
-`name` designates under working directory `wd`. -/
-def step {A C V} [DecidableEq A] (resolve : String → String → String) (f : A → C → V)
+/-- one event; returns the loader's answer for `load` events.  `resolve env name` is the file that
+`name` designates now (working directory, current directory, symbolic links). -/
+def step {A C V} [DecidableEq A] (resolve : Env → String → String) (f : A → C → V)
     (evict : Cache A V → Cache A V) (w : World A C V) : Ev A C → World A C V × Option (Option V)
   | .write p c st =>
     ({ w with fs := fun q => if q = p then some ⟨if st then some w.clock else none, c⟩ else w.fs q,
               clock := w.clock + 1 }, none)
   | .remove p => ({ w with fs := fun q => if q = p then none else w.fs q }, none)
-  | .setwd d => ({ w with wd := d }, none)
+  | .setwd d => ({ w with env := { w.env with wd := d } }, none)
+  | .chdir d => ({ w with env := { w.env with cwd := d } }, none)
+  | .link p t => ({ w with env := { w.env with links := (p, t) :: w.env.links } }, none)
   | .load n a =>
-    let r := memoLoad f evict w.cache w.fs n (resolve w.wd n) a
+    let r := memoLoad f evict w.cache w.fs n (resolve w.env n) a
     ({ w with cache := r.2 }, some r.1)
 
 /-- the uncached reference: read the designated file now and place it -/
-def stepSpec {A C V} (resolve : String → String → String) (f : A → C → V) (fs : FS C)
-    (wd : String) : Ev A C → Option (Option V)
-  | .load n a => some ((fs (resolve wd n)).map (fun file => f a file.content))
+def stepSpec {A C V} (resolve : Env → String → String) (f : A → C → V) (fs : FS C)
+    (env : Env) : Ev A C → Option (Option V)
+  | .load n a => some ((fs (resolve env n)).map (fun file => f a file.content))
   | _ => none
 
-def run {A C V} [DecidableEq A] (resolve : String → String → String) (f : A → C → V)
+def run {A C V} [DecidableEq A] (resolve : Env → String → String) (f : A → C → V)
     (evict : Cache A V → Cache A V) : World A C V → List (Ev A C) → List (Option (Option V))
   | _, [] => []
   | w, e :: es => (step resolve f evict w e).2 :: run resolve f evict (step resolve f evict w e).1 es
 
 /-- the same history without any cache -/
-def runSpec {A C V} [DecidableEq A] (resolve : String → String → String) (f : A → C → V)
+def runSpec {A C V} [DecidableEq A] (resolve : Env → String → String) (f : A → C → V)
     (evict : Cache A V → Cache A V) : World A C V → List (Ev A C) → List (Option (Option V))
   | _, [] => []
   | w, e :: es =>
-    stepSpec resolve f w.fs w.wd e :: runSpec resolve f evict (step resolve f evict w e).1 es
+    stepSpec resolve f w.fs w.env e :: runSpec resolve f evict (step resolve f evict w e).1 es
 
-/-- `complete_path`: an absolute name is kept, a relative one is joined to the working directory
-(no working directory: kept, i.e. relative to the process's current directory, which the harness
-maps to the prefix `cwd/`) -/
-def resolvePath (wd name : String) : String :=
-  if name.startsWith "/" then name else if wd = "" then "cwd/" ++ name else wd ++ "/" ++ name
+/-- follow symbolic links (newest binding first), at most `fuel` times -/
+def followLinks (links : List (String × String)) : Nat → String → String
+  | 0, p => p
+  | fuel + 1, p =>
+    match links.lookup p with
+    | some t => followLinks links fuel t
+    | none => p
+
+/-- `complete_path` + `Path.resolve()`: an absolute name is kept, a relative one is joined to the working
+directory (no working directory: to the process's current directory); then symbolic links are followed -/
+def resolvePath (env : Env) (name : String) : String :=
+  let p := if name.startsWith "/" then name else if env.wd = "" then env.cwd ++ "/" ++ name else env.wd ++ "/" ++ name
+  followLinks env.links 8 p
+
+/-- a wrong variant (seeded defect C20-9): the resolution of a name is remembered the first time and reused,
+whatever the links and the current directory have become -/
+def resolveMemo (memo : List (String × String)) (env : Env) (name : String) : String × List (String × String) :=
+  match memo.lookup name with
+  | some p => (p, memo)
+  | none => (resolvePath env name, (name, resolvePath env name) :: memo)
 
 /-! ## text images: separator detection of `load_image` -/
 
